@@ -14,7 +14,7 @@ func init() {
 }
 
 func checkC10(w *World, r *Report) {
-	r.Decides = "C10 is decided in its structural part only: (a) provenance of the revision: every command result carries the entry's own index, Update hands the marshalled result back for every command kind except the internal no-op, the table layer copies the decoded revision into the response header, nothing else writes ResponseHeader.Revision and the forwarding server returns the leader's message untouched; (b) the consensus read is taken exactly on the linearizable edge and the local read on the other, and the flag is the request's Linearizable for range reads, the constant true for read-only transactions, table snapshots and the replication handler's first applied-index read; (c) reads nested in logged commands go through the apply batch (they see every write with a smaller revision, also those of the same apply call); (d) a read-only transaction reads one Pebble snapshot (a state that existed)."
+	r.Decides = "C10 is decided in its structural part only: (a) provenance of the revision: every command result carries the entry's own index, Update hands the marshalled result back for every command kind except the internal no-op, the table layer copies the decoded revision into the response header, nothing else writes ResponseHeader.Revision and the forwarding server returns the leader's message untouched; (b) the consensus read is taken exactly on the linearizable edge and the local read on the other, and the flag is the request's Linearizable for range reads, the constant true for read-only transactions, table snapshots and the replication handler's first applied-index read; (c) reads nested in logged commands go through the apply batch (they see every write with a smaller revision, also those of the same apply call); (d) a read-only transaction reads one Pebble snapshot (a state that existed). (f) a follower acknowledges a forwarded write only with the notification queue's answer for the leader's revision."
 	r.NotDecided = []string{"linearizability / prefix consistency of what dragonboat's SyncRead and StaleRead return", "concurrent client histories"}
 	r.Assume = []string{"dragonboat assigns consecutive indices in commit order and SyncRead is a ReadIndex read"}
 	a := w.FsmAnchors()
@@ -32,6 +32,13 @@ func checkC10(w *World, r *Report) {
 	c01ReadOwnBatch(w, r, a, "C10.c", "c-apply-reads-own-batch")
 	c02OneSnapshot(w, r, a, "C10.d", "d-readonly-txn-one-state")
 	c05Batching(w, r, "C10.e", "e-follower-index-not-ahead")
+	// on a follower a write is acknowledged only once it is applied locally: otherwise a
+	// linearizable read on that node, started after the acknowledgement, misses it
+	if q := findQueue(w); q != nil {
+		c11Forwarding(w, r, q, "C10.f", "f-forwarded-write-applied-before-ack")
+	} else {
+		r.Ob("C10.f", "f-forwarded-write-applied-before-ack", "the forwarding handlers wait for the local apply", "").Undecided("anchors", "notification queue not found")
+	}
 }
 
 func c10ResultReported(w *World, r *Report, a *FsmA) {
